@@ -263,10 +263,41 @@ pub fn verify_authenticate(account: &Account, negotiate: &[u8], challenge_bytes:
     if blob[24..28].iter().any(|b| *b != 0) {
         return Err("nt-response: reserved bytes after the client challenge are not zero".into());
     }
-    let ti = target_info_bytes(challenge);
+    // the client copies the server's AV pairs; MS-NLMP 3.1.5.1.2 lets it add or rewrite MsvAvFlags (6), MsvAvTargetName (9) and
+    // MsvAvChannelBindings (10): those ids are left out of the comparison. The list ends with MsvAvEOL; zero padding may follow.
     let av = &blob[28..];
-    if !(av == &ti[..] || (av.len() == ti.len() + 4 && av[..ti.len()] == ti[..] && av[ti.len()..] == [0, 0, 0, 0])) {
-        return Err(format!("nt-response: AV pairs in the client challenge ({} bytes) are not the server's target info ({} bytes)", av.len(), ti.len()));
+    let mut client_pairs: Vec<(u16, Vec<u8>)> = Vec::new();
+    let mut p = 0usize;
+    let mut terminated = false;
+    while p + 4 <= av.len() {
+        let id = u16::from_le_bytes([av[p], av[p + 1]]);
+        let len = u16::from_le_bytes([av[p + 2], av[p + 3]]) as usize;
+        p += 4;
+        if id == 0 {
+            if len != 0 {
+                return Err("nt-response: MsvAvEOL with a non-zero length in the client challenge".into());
+            }
+            terminated = true;
+            break;
+        }
+        if p + len > av.len() {
+            return Err(format!("nt-response: AV pair {} of {} bytes runs past the end of the client challenge", id, len));
+        }
+        client_pairs.push((id, av[p..p + len].to_vec()));
+        p += len;
+    }
+    if !terminated {
+        return Err(format!("nt-response: the AV pairs in the client challenge ({} bytes) are not terminated by MsvAvEOL", av.len()));
+    }
+    if av.len() - p > 8 || av[p..].iter().any(|b| *b != 0) {
+        return Err(format!("nt-response: {} bytes after MsvAvEOL in the client challenge (only zero padding may follow)", av.len() - p));
+    }
+    let client_flags = client_pairs.iter().find(|(id, v)| *id == 6 && v.len() == 4).map(|(_, v)| u32::from_le_bytes([v[0], v[1], v[2], v[3]])).unwrap_or(0);
+    let free = |id: &u16| matches!(*id, 6 | 9 | 10);
+    let want: Vec<&(u16, Vec<u8>)> = challenge.target_info.iter().filter(|(id, _)| !free(id)).collect();
+    let got: Vec<&(u16, Vec<u8>)> = client_pairs.iter().filter(|(id, _)| !free(id)).collect();
+    if want != got {
+        return Err(format!("nt-response: AV pairs in the client challenge ({} pairs, {} bytes) are not the server's target info ({} pairs)", client_pairs.len(), av.len(), challenge.target_info.len()));
     }
     let key = crypto::ntowfv2(&account.nt_hash, &account.user, &account.domain);
     let mut data = challenge.server_challenge.clone();
@@ -308,7 +339,9 @@ pub fn verify_authenticate(account: &Account, negotiate: &[u8], challenge_bytes:
     all.extend_from_slice(challenge_bytes);
     all.extend_from_slice(&zeroed);
     let mic = hmac_md5(&exported, &all);
-    if auth_bytes[a.mic_offset..a.mic_offset + 16] != mic[..] {
+    // the MIC is announced by the server's timestamp or by the client's MsvAvFlags bit 2; otherwise the field is ignored
+    let mic_expected = server_ts.is_some() || client_flags & 2 != 0;
+    if mic_expected && auth_bytes[a.mic_offset..a.mic_offset + 16] != mic[..] {
         return Err("mic: the MIC does not verify over NEGOTIATE, CHALLENGE and AUTHENTICATE".into());
     }
     Ok(Verified { exported_session_key: exported, auth: a })
